@@ -184,6 +184,10 @@ func (fx *FnExec) doCall(st *State, instr ssa.Instruction, c *ssa.CallCommon) []
 		for _, cl := range ct.Ensures {
 			fx.sc.Assume(Implies(st.R, env.EvalBool(cl.Expr)))
 		}
+		for _, cl := range ct.Assumed {
+			fx.assumed[key+"#"+cl.Label+" (assumed postcondition)"] = true
+			fx.sc.Assume(Implies(st.R, env.EvalBool(cl.Expr)))
+		}
 		return results
 	}
 	// no contract: results unconstrained, frame from the inferred write set
@@ -402,6 +406,12 @@ func (fx *FnExec) builtinAppend(st *State, c *ssa.CallCommon, instr ssa.Instruct
 	// old content is carried over to the new array
 	fx.sc.Assume(Term{fmt.Sprintf("(forall ((j!q Int)) (=> (and (<= 0 j!q) (< j!q %s)) (= (select %s j!q) (select (select %s %s) (+ %s j!q)))))",
 		sLen.S, newArr.S, h.S, sBase.S, sOff.S), SBool})
+	if freshRoot(c.Args[0]) {
+		// the slice being extended lives in memory only this function instance can reach
+		// (a local accumulator): whether the runtime extends it in place or copies it cannot be
+		// observed, so the copy is taken as the single outcome
+		fits = TFalse
+	}
 	fx.SetHeap(st, key, Ite(fits, Store(h, sBase, inArr), Store(h, nref, newArr)))
 	res := Ite(fits,
 		App("mk-slice", SSlice, sBase, sOff, newLen, App("sl.cap", SInt, s)),
